@@ -23,7 +23,7 @@ LADDER = [0.2, 0.1, 0.05, 0.025]
 
 def floors(tier):
     return {'scenarios': 48, 'runs': 190, 'instants': 15000, 'order_ratios_checked': 100, 'above_stall': 8, 'below_stall': 20, 'negative_duty': 10, 'with_current_data': 15,
-            'without_current_data': 8, 'via_constant_pwm': 10, 'set:nontrivial': 20}
+            'without_current_data': 8, 'via_constant_pwm': 10, 'ladder_on_one_powertrain': 10, 'set:nontrivial': 20}
 
 
 def n_cases(tier):
@@ -63,6 +63,7 @@ def one(ctx, i):
     horizon = rng.uniform(3, 6) / k
     n0 = max(8, round(horizon * k / LADDER[0]))
     via_rule = i % 3 == 0
+    reuse = i % 2 == 1 and not via_rule        # rules hold the powertrain they were built for: the reuse study runs without a controller
     ladder = LADDER + ([0.0125] if ctx.tier == 'thorough' else [])
     errs_w, errs_th = [], []
     tu = spec['schedule'][0]['dt']['u']
@@ -80,7 +81,15 @@ def one(ctx, i):
         else:
             sp['ic']['pwm'] = D
         try:
-            b = B.build(sp)
+            if reuse and j > 0:
+                # the step-size study on ONE powertrain: reset, re-apply the initial conditions, run with the finer step
+                b.pt.reset()
+                b.spec = sp
+                B.apply_ic(b)
+                if rng.random() < 0.5:
+                    b.solver = B.g().Solver(powertrain=b.pt)
+            else:
+                b = B.build(sp)
             runs = B.run_schedule(b)
         except Exception as ex:
             ctx.violation('harness:valid-scenario-rejected', {'exception': type(ex).__name__ + ': ' + str(ex)[:200]}, case)
@@ -120,6 +129,8 @@ def one(ctx, i):
         ctx.count('negative_duty')
     if via_rule:
         ctx.count('via_constant_pwm')
+    if reuse:
+        ctx.count('ladder_on_one_powertrain')
     scale = abs(w_init - winf)
     for name, errs, sc in (('speed', errs_w, scale), ('position', errs_th, scale / k)):
         for e1, e2 in zip(errs, errs[1:]):
